@@ -95,3 +95,41 @@ def accept_callbacks(f):
         if holds:
             out.append(b)
     return out
+
+
+_drv_memo = {}
+
+
+def driver_paths(f, b):
+    """Paths of the handshake driver with its crate-private helpers looked through - async ones too (a helper that prepares and
+    runs the READY exchange, say) - except the greeting and READY exchanges themselves, which stay calls the rules can name."""
+    from .. import pathq
+    from ..sym import Sym
+    key = (id(f), b.path)
+    if key not in _drv_memo:
+        roles = {anchors(f).get("greet"), anchors(f).get("ready")} - {None}
+        base = pathq.default_inline(f, allow_async=True)
+
+        def pol(fn):
+            r = fn.get("resolved") or {}
+            path = r.get("path") if r.get("kind") == "item" else fn["path"]
+            return path not in roles and base(fn)
+        s = Sym(f, max_visits=2, max_paths=50000, inline=pol, inline_depth=3)
+        s.inline_async = True
+        _drv_memo[key] = s.paths(b)
+    return _drv_memo[key]
+
+
+def greeting_in_driver(f):
+    """There is no separate greeting-exchange function: the driver itself sends the greeting, reads the peer's and hands it to the
+    version negotiation (found by signature) - the driver then plays the greeting role as well."""
+    from .. import pathq
+    A = anchors(f)
+    if A.get("greet") is not None or A.get("driver") is None or A.get("negotiate") is None:
+        return False
+    drv = co(f, "driver")
+    if drv is None:
+        return False
+    neg = A["negotiate"]
+    return any(fn and (fn["path"] == neg or (fn.get("resolved") or {}).get("path") == neg)
+               for k in pathq.scope(f, drv, allow_async=True) for bb, t, fn in k.calls())
